@@ -31,6 +31,7 @@
 -/
 import PsutilModel.Proofs.C01Args
 import PsutilModel.Proofs.C01Hid
+import PsutilModel.Proofs.C01Rdb
 import PsutilModel.Proofs.C01Pid0
 import PsutilModel.Model.C01Gen
 namespace Psutil.C01
@@ -54,6 +55,13 @@ theorem cfg_window : Gen.C01.windowCalls = [] := by decide
 theorem cfg_native_pid :
     Gen.C01.nativePidArgs = [("nice_set", ["self.pid"]), ("ionice_set", ["self.pid"]),
       ("cpu_affinity_set", ["self.pid"]), ("rlimit", ["self.pid", "self.pid"])] := by decide
+
+/-- the identity tuple is written by `Process._init` only: no other function of the package stores to an attribute
+    named `_ident` (assignment of any form, `setattr`, `__dict__`).  The model's objects keep `PObj.ident` for life
+    (`Same.ident`, Proofs/C01Hid.lean: no method changes it); this obligation breaks when some call — `create_time()`,
+    `is_running()`, `__eq__`, anything — starts to "complete" or refresh an object's identity after construction, which
+    would let a `(pid, None)` object adopt whoever holds the PID then. -/
+theorem cfg_ident_writers : Gen.C01.identWriters = ["__init__.py:Process._init"] := by decide
 
 /-- **C01_all_guarded** (restates part of `cfg_good` in the property's own words; no extra strength). Every signal method and every setter named by the property calls
     `_raise_if_pid_reused()` before its OS effect. -/
@@ -542,6 +550,91 @@ theorem C01_known_start_no_wrong_owner (b0 : Nat) (hb : BtOK cfg.createNoneTest 
       ∃ o, (run cfg (St.init b0) h).ps.objs[e.obj]? = some o ∧ e.pid = (o.pid : Int)
         ∧ (e.kind = .kill → 0 < e.pid) ∧ (o.ident ≠ none → e.owner = some o.ghost) :=
   run_log2 cfg_good h _ hh (init_inv2 _ hb) (fun e he => by simp [St.init] at he)
+
+/-- **C01_recycled_raises_NSP_readable.**  The recycling clause of the property over the wider class of histories in
+    which stat files may be unreadable at ANY point (`HistOKb`: `hide` events anywhere — in particular while a
+    `Process` object is being built, which leaves it with `_ident = (pid, None)`), for EVERY object, with ANY calls in
+    between (`create_time()`, `is_running()`, `process_iter()`, …): when the incarnation the object was built for has
+    left the process table and `/proc/pid/stat` of the PID opens at the moment of the call (the PID is free, or its
+    new holder's stat file is readable — `StatOpens`), every signal method and every setter raises NoSuchProcess(pid)
+    and nothing is handed to the OS.  So an object never "adopts" a later holder of its PID: the only way past the
+    guard for a stale object is `C01_unknown_start_counterexample` (start unknown AND the new holder unreadable
+    at that very moment).  Consumes `cfg_good`; the model's "`_ident` is written at construction only" is
+    `cfg_ident_writers`. -/
+theorem C01_recycled_raises_NSP_readable (b0 : Nat) (hb : BtOK cfg.createNoneTest b0) (h : List Ev)
+    (hh : HistOKb cfg.createNoneTest h) (call : Call)
+    (i : Nat) (o : PObj) (htg : call.target = some i) (hec : isEffectCall call = true)
+    (ho : (run cfg (St.init b0) h).ps.objs[i]? = some o)
+    (hgone : ¬ Listed (run cfg (St.init b0) h).kern o)
+    (hread : StatOpens (run cfg (St.init b0) h).kern o.pid) :
+    (step cfg (run cfg (St.init b0) h) (.c call)).2 = .exc (.noSuchProcess o.pid)
+      ∧ (step cfg (run cfg (St.init b0) h) (.c call)).1.log = (run cfg (St.init b0) h).log := by
+  have hinv := run_inv2 cfg_good.toBootGood h _ hh (init_inv2 cfg.clk hb)
+  generalize run cfg (St.init b0) h = s at *
+  obtain ⟨r, hm⟩ := method_some cfg s.kern s.ps o htg
+  obtain ⟨he, hout⟩ := method_refuses_readable cfg_good hinv.kern.stamp hinv.ps.boot_nz
+    (hinv.ps.objs o (List.mem_of_getElem? ho)) hm hec hgone hread
+  rw [step_method cfg s htg ho hm]
+  simp [he, hout, pushEff]
+
+/-- **C01_effect_readable_right_owner.**  The same clause read off the effects: after ANY history (`HistOKb`), whenever
+    a call does hand something to the OS while the PID's stat file opens, the PID is held by the very incarnation the
+    asking object was built for (`Eff.owner` = the object's ghost) — known start or not. -/
+theorem C01_effect_readable_right_owner (b0 : Nat) (hb : BtOK cfg.createNoneTest b0) (h : List Ev)
+    (hh : HistOKb cfg.createNoneTest h) (call : Call) (i : Nat) (o : PObj) (e : Eff)
+    (htg : call.target = some i) (ho : (run cfg (St.init b0) h).ps.objs[i]? = some o)
+    (hread : StatOpens (run cfg (St.init b0) h).kern o.pid)
+    (hlog : (step cfg (run cfg (St.init b0) h) (.c call)).1.log = e :: (run cfg (St.init b0) h).log) :
+    e.owner = some o.ghost ∧ e.pid = (o.pid : Int) ∧ Listed (run cfg (St.init b0) h).kern o := by
+  have hinv := run_inv2 cfg_good.toBootGood h _ hh (init_inv2 cfg.clk hb)
+  have hlisted : Listed (run cfg (St.init b0) h).kern o := Classical.byContradiction fun hgone => by
+    cases hec : isEffectCall call with
+    | true =>
+      have := (C01_recycled_raises_NSP_readable b0 hb h hh call i o htg hec ho hgone hread).2
+      rw [this] at hlog
+      exact absurd (congrArg List.length hlog) (by simp)
+    | false =>
+      generalize run cfg (St.init b0) h = s at *
+      obtain ⟨r, hm⟩ := method_some cfg s.kern s.ps o htg
+      rw [step_method cfg s htg ho hm, method_eff_none hm hec] at hlog
+      exact absurd (congrArg List.length hlog) (by simp [pushEff])
+  generalize run cfg (St.init b0) h = s at *
+  obtain ⟨p, hp, hown, _⟩ := C01_owner_meaning s call e hlog
+  rcases C01_exact_args s call with hsame | ⟨e', i', o', hl', htg', ho', _, hpid', _⟩
+  · rw [hsame] at hlog
+    exact absurd (congrArg List.length hlog) (by simp)
+  · rw [htg] at htg'; cases htg'
+    rw [ho] at ho'; cases ho'
+    rw [hlog] at hl'
+    simp only [List.cons.injEq, and_true] at hl'
+    subst hl'
+    have hpo : p = o.pid := by rw [hp] at hpid'; exact_mod_cast hpid'
+    subst hpo
+    obtain ⟨x, hx, hxp, hxs⟩ := hlisted
+    have hown' : s.kern.owner o.pid = some o.ghost := by
+      have hk := hinv.kern
+      have hsome : (s.kern.procs.find? (·.pid == o.pid)).isSome := by
+        rw [List.find?_isSome]; exact ⟨x, hx, by simp [hxp]⟩
+      obtain ⟨y, hy⟩ := Option.isSome_iff_exists.1 hsome
+      have hyp : y.pid = o.pid := by simpa using List.find?_some hy
+      have : y = x := mem_eq_of_nodup_pid hk.uniq (List.mem_of_find?_eq_some hy) hx (hyp.trans hxp.symm)
+      simp [Kernel.owner, Kernel.find, hy, this, hxs]
+    exact ⟨hown.trans hown', hpid', ⟨x, hx, hxp, hxs⟩⟩
+
+/-- the seeded history of this clause (non-vacuity): PID 7's stat is unreadable while the object is built, the process
+    is reaped, PID 7 goes to another process whose stat IS readable, `create_time()` is asked (it answers with the NEW
+    holder's start — memoised in `_create_time`, `_ident` stays `(7, None)`), then kill(): NoSuchProcess(7), nothing
+    delivered; the hypotheses of `C01_recycled_raises_NSP_readable` hold in that state -/
+example :
+    let h : List Ev := [.k (.spawn 7), .k (.hide 7 true), .c (.newObj 7), .k (.reap 7), .k (.spawn 7),
+                        .k (.hide 7 false), .c (.createTime 0)]
+    HistOKb cfg.createNoneTest h
+    ∧ (step cfg (run cfg (St.init 1000) (h.take 6)) (.c (.createTime 0))).2 = .nat (1 + cfg.clk * 1000)
+    ∧ (run cfg (St.init 1000) h).ps.objs[0]? = some ⟨7, none, some (1 + cfg.clk * 1000), false, false, 0⟩
+    ∧ statOpensB (run cfg (St.init 1000) h).kern 7 = true ∧ listedB (run cfg (St.init 1000) h).kern ⟨7, none, none, false, false, 0⟩ = false
+    ∧ (step cfg (run cfg (St.init 1000) h) (.c (.signal 0 .kill))).2 = .exc (.noSuchProcess 7)
+    ∧ (step cfg (run cfg (St.init 1000) h) (.c (.signal 0 .kill))).1.log = []
+    ∧ (step cfg (run cfg (St.init 1000) h) (.c (.setter 0 .nice [5]))).2 = .exc (.noSuchProcess 7) := by decide
 
 /-- as soon as the new holder's stat can be read the same call is refused: the fresh `(7, t)` differs from
     `(7, None)` -/
